@@ -4,5 +4,5 @@
 here="$(cd "$(dirname "$0")" && pwd)"
 for spec in "$@"; do echo "$spec"; done | xargs -P 3 -n 1 sh -c '
   s="${0%%:*}"; ids=$(echo "${0#*:}" | tr "," " ")
-  out=$('"$here"'/try_seed.sh '"$here"'/../seeded/$s/patch.diff $ids 2>&1 | cut -c1-300 | tr "\n" " ")
+  out=$('"$here"'/try_seed.sh '"$here"'/../seeded/$s/patch.diff $ids 2>&1 | sed -e "s/^\(\[C[0-9]*\]\) KNOWN-FINDING.*\(VIOLATION\|OK property\|MACHINERY\)/\1 \2/" | grep -o "^\[C[0-9]*\] \(VIOLATION[^(]*([^:]*:[^:]*\|OK\|MACHINERY[^:]*\|KNOWN\)" | sed -e "s/property=[A-Z0-9]* replay=[^ ]* *//" | tr "\n" " ")
   echo "$s: $out"'
